@@ -21,6 +21,8 @@ type C09 struct {
 	Vals   []hub.Validator
 	Chains []string
 	Stakes []int64
+	Seed   []engine.Op
+	Extra  bool // jailing before BeginBlocker, observed signer sets, long quiet periods
 }
 
 func NewC09(n int) *C09 {
@@ -33,7 +35,7 @@ func NewC09(n int) *C09 {
 
 func (c *C09) ID() string               { return "C09" }
 func (c *C09) Setup(in *hub.Instance)   { in.AnteSeq = true }
-func (c *C09) SeedPaths() [][]engine.Op { return [][]engine.Op{{}} }
+func (c *C09) SeedPaths() [][]engine.Op { return [][]engine.Op{c.Seed} }
 func (c *C09) Genesis() hub.Genesis {
 	g := hub.Genesis{Hub: *mhubtypes.DefaultGenesisState(), Oracle: *oracletypes.DefaultGenesisState()}
 	for _, v := range c.Vals {
@@ -70,11 +72,17 @@ func (c *C09) Ops(s *HState) []engine.Op {
 			ops = append(ops, engine.OpN("SetStake", v, i))
 		}
 		ops = append(ops, engine.OpN("Unbond", v), engine.OpN("Rebond", v))
+		if c.Extra {
+			ops = append(ops, engine.OpN("JailNext", v))
+		}
 		for _, ch := range c.Chains {
 			if !g.Reg[fmt.Sprintf("%s/%d", ch, v)] {
 				ops = append(ops, engine.OpN("Reg", ch, v))
 			}
 		}
+	}
+	if c.Extra {
+		ops = append(ops, engine.OpN("Observe", "ethereum"), engine.OpN("Idle"))
 	}
 	return ops
 }
@@ -101,6 +109,40 @@ func (c *C09) Do(in *hub.Instance, gg Ghost, op engine.Op, st *engine.Step) {
 			return
 		}
 		c.begin(in, g, st)
+	case "JailNext":
+		// x/slashing (downtime) or x/evidence (double sign) jails the validator in its BeginBlocker, which runs
+		// before mhub2's: the validator is out of the power index at once, last powers are refreshed at the EndBlocker
+		if p := in.EndBlock(); BlockFailure(st, p) {
+			return
+		}
+		if in.Staking.Vals[op.I[0]].Bonded {
+			in.Staking.Vals[op.I[0]].Jailed = true
+		}
+		c.begin(in, g, st)
+	case "Idle":
+		// more than SignedSignerSetTxsWindow (10000) blocks in which nothing happens
+		if p := in.EndBlock(); BlockFailure(st, p) {
+			return
+		}
+		in.Height += 10005
+		in.Time += 10005 * 5
+		c.begin(in, g, st)
+	case "Observe":
+		// the latest signer set was relayed; every validator reports its execution event (own accounts: no keys needed)
+		ch := mhubtypes.ChainID(op.S[0])
+		l := in.Hub.GetLatestSignerSetTx(in.Ctx(), ch)
+		if l == nil {
+			return
+		}
+		n := in.Hub.GetLastObservedEventNonce(in.Ctx(), ch) + 1
+		ev := &mhubtypes.SignerSetTxExecutedEvent{EventNonce: n, SignerSetTxNonce: l.Nonce, ExternalHeight: 100 + n, Members: l.Signers, TxHash: fmt.Sprintf("0xss%d", n)}
+		ok := 0
+		for i, v := range c.Vals {
+			if in.Staking.Vals[i].Bonded && in.DeliverMsg(hub.EventMsg(v.Acc, op.S[0], ev)).OK() {
+				ok++
+			}
+		}
+		st.Obs = fmt.Sprint(ok)
 	}
 }
 
@@ -133,7 +175,7 @@ func (c *C09) begin(in *hub.Instance, g *c09Ghost, st *engine.Step) {
 	boundary := in.Snapshot()
 	nb := 0
 	for _, v := range in.Staking.Vals {
-		if v.Bonded {
+		if v.Bonded && !v.Jailed {
 			nb++
 		}
 	}
@@ -175,8 +217,8 @@ func (c *C09) begin(in *hub.Instance, g *c09Ghost, st *engine.Step) {
 		var members []mem
 		tot := new(big.Int)
 		for i, v := range in.Staking.Vals {
-			if !v.Bonded {
-				continue
+			if !v.Bonded || v.Jailed {
+				continue // a jailed validator has left the power index (and with it the set of bonded validators)
 			}
 			ext := in.Hub.GetValidatorExternalAddress(ctx, chain, c.Vals[i].Oper)
 			if ext.Hex() == "0x0000000000000000000000000000000000000000" {
@@ -238,10 +280,11 @@ func (c *C09) begin(in *hub.Instance, g *c09Ghost, st *engine.Step) {
 		}
 		// 5% rule after every BeginBlocker: 20 * sum|cur - latest| <= 2^32-1 (exact integers)
 		if latest != nil {
-			cur := in.Hub.CurrentSignerSet(ctx, chain)
+			// reference current set: floor(stake * (2^32-1) / total) per bonded validator with a key
 			m := map[string]int64{}
-			for _, s := range cur {
-				m[s.ExternalAddress] += int64(s.Power)
+			for _, mb := range members {
+				rp := refPower(mb.stake)
+				m[mb.ext] += new(big.Int).Quo(rp.Num(), rp.Denom()).Int64()
 			}
 			for _, s := range latest.Signers {
 				m[s.ExternalAddress] -= int64(s.Power)
@@ -253,7 +296,8 @@ func (c *C09) begin(in *hub.Instance, g *c09Ghost, st *engine.Step) {
 				}
 				delta.Add(delta, big.NewInt(d))
 			}
-			if new(big.Int).Mul(delta, big.NewInt(20)).Cmp(max32) > 0 {
+			// one unit of rounding per member is allowed on top of the 5 %
+			if new(big.Int).Mul(new(big.Int).Sub(delta, big.NewInt(int64(len(m)))), big.NewInt(20)).Cmp(max32) > 0 {
 				var ks []string
 				for k, v := range m {
 					ks = append(ks, fmt.Sprintf("%s:%d", k[:8], v))
@@ -270,6 +314,17 @@ func (c *C09) begin(in *hub.Instance, g *c09Ghost, st *engine.Step) {
 
 var _ = sdk.NewInt
 
+// c09Extra: three validators with distinct stakes and ethereum keys; the latest set has been observed as executed.
+func c09Extra() *C09 {
+	c := NewC09(3)
+	c.Extra = true
+	c.Chains = []string{"ethereum"}
+	c.Stakes = []int64{2, 1_000_000}
+	c.Seed = []engine.Op{engine.OpN("Reg", "ethereum", 0), engine.OpN("Reg", "ethereum", 1), engine.OpN("Reg", "ethereum", 2), engine.OpN("SetStake", 0, 0), engine.OpN("Next"),
+		engine.OpN("Observe", "ethereum"), engine.OpN("Next")}
+	return c
+}
+
 func init() {
 	Register("C09", MultiRunner(func(tier string) ([]MultiCase, []string) {
 		d3, d4, dl := 4, 3, 35*time.Second
@@ -280,6 +335,7 @@ func init() {
 				{Name: "3 validators", Spec: NewC09(3), Cfg: engine.Config{MaxDepth: d3, Deadline: dl, ReplayLeaf: 20}},
 				{Name: "4 validators", Spec: NewC09(4), Cfg: engine.Config{MaxDepth: d4, Deadline: dl, ReplayLeaf: 20}},
 				{Name: "1 validator", Spec: NewC09(1), Cfg: engine.Config{MaxDepth: d3 + 1, Deadline: dl, ReplayLeaf: 20}},
+				{Name: "3 validators with keys: jailing before BeginBlocker, observed sets, quiet periods", Spec: c09Extra(), Cfg: engine.Config{MaxDepth: d4, Deadline: dl, ReplayLeaf: 20}},
 			}, []string{
 				"stakes {1,2,10^6,2^40} (ties, one dominant validator), bond/unbond, key registration per chain through the real MsgDelegateKeys; all validators start bonded with stake 1 and no keys",
 				"a published set is checked in the BeginBlocker that publishes it; the 5% rule is checked after every BeginBlocker with exact integers",
